@@ -36,6 +36,8 @@ type Case struct {
 	// Where the stage waits for the others of its layer: "" = in the task's command, "condition" = in the task's
 	// condition, "before" = in the task's before hook (these two use one task per stage, with literal texts)
 	Where string `json:"where,omitempty"`
+	// Ctx: all tasks run in one named execution context that has before and after commands of its own
+	Ctx bool `json:"ctx,omitempty"`
 }
 
 func (c Case) canon() string { b, _ := json.Marshal(c); return string(b) }
@@ -116,7 +118,17 @@ func run(c Case, dir string, scale int) (err error, timing bool) {
 		}
 		stages = append(stages, st)
 	}
+	if c.Ctx {
+		tm := gen.Map{}
+		for _, kv := range tasks {
+			tm = tm.Set(kv.K, kv.V.(gen.Map).Set("context", "cx"))
+		}
+		tasks = tm
+	}
 	cfg := gen.Map{{K: "tasks", V: tasks}, {K: "pipelines", V: gen.Map{{K: "pp", V: stages}}}}
+	if c.Ctx {
+		cfg = cfg.Set("contexts", gen.Map{{K: "cx", V: gen.Map{{K: "before", V: gen.List{"true"}}, {K: "after", V: gen.List{"true"}}}}})
+	}
 	os.WriteFile(filepath.Join(dir, "t.yaml"), []byte(gen.YAML(cfg)), 0o644)
 	env := cli.Env{Bin: drv.Bin(), Dir: dir, Home: filepath.Join(dir, "home"), Timeout: time.Duration(30*scale) * time.Second}
 	r := env.Run("-c", "t.yaml", "--raw", "pp")
@@ -148,6 +160,7 @@ var nameGroups = [][]string{{"build-app", "build.app", "BUILD_APP"}, {"test", "T
 func genCase(rt *rapid.T) Case {
 	var c Case
 	c.Where = rapid.SampledFrom([]string{"", "", "condition", "before"}).Draw(rt, "where")
+	c.Ctx = rapid.IntRange(0, 2).Draw(rt, "shared-context") == 0
 	nl := rapid.IntRange(1, 3).Draw(rt, "layers")
 	taskNames := []string{}
 	for _, g := range nameGroups {
